@@ -450,6 +450,75 @@ def writeInitParams {DT Val : Type} (consumes : WriteOracle Val) (i : Instance D
 def prologue {DT Val : Type} (consumes : WriteOracle Val) (i : Instance DT Val) : List (Ev Val) :=
   writeInitParams consumes i ++ [Ev.firstPoll]
 
+/-! ## optional accessibles (modulebase.py:405-411)
+
+`for aname, aobj in accessibles.items(): if aobj.optional: continue; …; acfg = cfgdict.pop(aname, None); …`
+— an accessible declared in a base class with `optional=True` and not implemented by the class is skipped BEFORE its
+cfg entry is taken out of `cfgdict`: a cfg entry for it stays there and is reported as "does not exist". -/
+
+/-- one entry of the class attribute `accessibles` as the loop of the constructor sees it -/
+structure AccDecl (DT Val : Type) where
+  desc : ParamDesc DT Val
+  optional : Bool                -- declared `optional=True` and not implemented by this class
+
+structure LoopOut (DT Val : Type) where
+  out : ParamsOut DT Val
+  popped : List Name             -- the names whose entry the loop took out of `cfgdict`
+
+def accStep {DT Val : Type} (ops : Ops DT Val) (cfg : Cfg Val) (acc : LoopOut DT Val) (d : AccDecl DT Val) :
+    LoopOut DT Val :=
+  if d.optional then acc                                       -- `continue`: nothing popped
+  else ⟨paramStep ops cfg acc.out d.desc, if acc.out.raised then acc.popped else acc.popped ++ [d.desc.name]⟩
+
+def accLoop {DT Val : Type} (ops : Ops DT Val) (ds : List (AccDecl DT Val)) (cfg : Cfg Val) : LoopOut DT Val :=
+  ds.foldl (accStep ops cfg) ⟨⟨[], [], [], false⟩, []⟩
+
+/-- the accessibles the instance gets: the class description the rest of the model works with -/
+def implemented {DT Val : Type} (ds : List (AccDecl DT Val)) : List (ParamDesc DT Val) :=
+  (ds.filter (fun d => !d.optional)).map (·.desc)
+
+/-! ## the configuration DSL (config.py:53-90): `Param`, `Group`, `Mod` -/
+
+/-- a keyword argument of `Mod(name, cls, description, …)` as written in a configuration file -/
+inductive DslArg (Val : Type) where
+  | bare (v : Val)                                           -- `key=v`: "shortcut to only set value"
+  | param (value : Option Val) (kwds : List (Name × Val))    -- `key=Param(v, k=…)` / `Param(k=…)`; `Command` is the same class
+  | group (members : List Name)                              -- `key=Group('a', 'b')`
+
+/-- `Param.__init__(self, value=Undef, **kwds)`: the keywords as written, then `value` when one was given.  `Undef` is a
+sentinel class: ANY given value — `None`, `0`, `''`, `False` too — ends up in the dict -/
+def paramDict {Val : Type} (value : Option Val) (kwds : List (Name × Val)) : List (Name × Val) :=
+  match value with
+  | some v => setKey "value" v kwds
+  | none => kwds
+
+/-- first loop of `Mod.__init__`: a `Param` is stored as it is, a bare value is wrapped, groups are kept for later -/
+def modArgStep {Val : Type} (d : Cfg Val) (kv : Name × DslArg Val) : Cfg Val :=
+  match kv.2 with
+  | .bare v => setKey kv.1 (.acc (paramDict (some v) [])) d
+  | .param value kwds => setKey kv.1 (.acc (paramDict value kwds)) d
+  | .group _ => d
+
+/-- `self[member]['group'] = group`: `KeyError` for a member without entry, `TypeError` for `description` (a str) -/
+def setGroup {Val : Type} (mkStr : Name → Val) (g : Name) (d : Option (Cfg Val)) (member : Name) : Option (Cfg Val) :=
+  match d with
+  | none => none
+  | some d =>
+    match lookup member d with
+    | some (.acc items) => some (setKey member (.acc (setKey "group" (mkStr g) items)) d)
+    | _ => none
+
+def groupsOf {Val : Type} (args : List (Name × DslArg Val)) : List (Name × List Name) :=
+  args.filterMap fun kv => match kv.2 with
+    | .group ms => some (kv.1, ms)
+    | _ => none
+
+/-- `Mod.__init__` without `name`/`cls` (taken out by `Config.__init__` / `get_module_instance`); `none`: an exception
+leaves `exec` — the file is not loaded at all.  `description` is a plain string -/
+def modDict {Val : Type} (mkStr : Name → Val) (description : Val) (args : List (Name × DslArg Val)) : Option (Cfg Val) :=
+  (groupsOf args).foldl (fun d g => g.2.foldl (setGroup mkStr g.1) d)
+    (some (args.foldl modArgStep [("description", .prop (.bare description))]))
+
 /-! ## merging of config files (config.py:105-135, 186-215) -/
 
 /-- one parsed file: equipment id of its node section and its modules (a dict: names unique) -/
